@@ -65,6 +65,74 @@ func randFilt(rng *rand.Rand) filt {
 	}
 }
 
+// churn: subscribers come and go.  Every sequence of length n over {Subscribe a new one, close the oldest open
+// subscriber, close the newest open one, Publish}, after two initial subscribers; then a drain.  Whoever is
+// subscribed and not closed at a Publish must get the message exactly once, whatever was closed or created
+// before (subscriber ids must never be reused for a live subscriber).
+func churnScripts(n int) [][]Stim {
+	mk := func(k int) Stim {
+		f := []filt{filtNil, filtEven, filtNil, filtOdd}[k%4]
+		return sub(1+k%3, f.fk, f.mod, f.rem, 2, k%2 == 1, false)
+	}
+	var out [][]Stim
+	var rec func(st []Stim, open []int, total, left int)
+	rec = func(st []Stim, open []int, total, left int) {
+		if left == 0 {
+			out = append(out, append([]Stim(nil), st...))
+			return
+		}
+		rec(append(st, mk(total)), append(append([]int(nil), open...), total), total+1, left-1)
+		if len(open) > 0 {
+			rec(append(st, closeS(open[0])), append([]int(nil), open[1:]...), total, left-1)
+		}
+		if len(open) > 1 {
+			rec(append(st, closeS(open[len(open)-1])), append([]int(nil), open[:len(open)-1]...), total, left-1)
+		}
+		rec(append(st, pubS(0)), open, total, left-1)
+	}
+	rec([]Stim{mk(0), mk(1)}, []int{0, 1}, 2, n)
+	return out
+}
+
+// callbackCloseScripts: OnTimeout / OnFiltered callbacks that call Subscriber.Close or Publication.Close from
+// inside the callback.  Every subscriber has a filter (FMod 1 0 accepts everything) so that the visits of a
+// Publish are observed; a run in which such a Close overlaps another Publish is discarded as timing-ambiguous.
+func callbackCloseScripts(rng *rand.Rand, n1, n2 int) [][]Stim {
+	all := func(c, tmo int, onT bool, cbT int) Stim {
+		s := sub(c, 1, 1, 0, tmo, false, onT)
+		s.CbT = cbT
+		return s
+	}
+	rejecting := func(c int) Stim { // even filter, OnFiltered closes the subscriber
+		s := sub(c, 1, 2, 0, 2, true, false)
+		s.CbF = 1
+		return s
+	}
+	var out [][]Stim
+	// fixed ones
+	out = append(out,
+		[]Stim{all(0, 0, true, 1), pubS(0), advanceS, pubS(0), recvS(0)},
+		[]Stim{all(1, 0, true, 2), all(2, 2, false, 0), pubS(0), pubS(0), pubS(0), advanceS, recvS(1), pubS(0)},
+		[]Stim{all(1, 3, true, 1), pubS(0), pubS(0), pubS(0), recvS(0), recvS(0)},
+		[]Stim{all(1, 4, true, 2), all(1, 2, true, 0), pubS(0), pubS(0), pubS(0)},
+		[]Stim{rejecting(1), all(1, 2, false, 0), pubS(0), pubS(0), pubS(0), recvS(0), recvS(1)},
+		[]Stim{all(0, 0, true, 1), all(0, 0, true, 1), all(0, 0, true, 2), pubS(0), pubS(0), advanceS, pubS(0)})
+	// exhaustive short sequences for the single-subscriber configurations
+	for _, cfg := range []Stim{all(0, 0, true, 1), all(1, 0, true, 2), all(1, 3, true, 1), all(2, 4, true, 1), rejecting(1)} {
+		for _, seq := range sequences([]Stim{pubS(0), recvS(0), advanceS}, n1) {
+			out = append(out, append([]Stim{cfg}, seq...))
+		}
+	}
+	// two subscribers: s0's OnTimeout closes the publication / itself, s1 has a 60s timeout and buffered messages
+	for _, cbt := range []int{1, 2} {
+		for _, seq := range sequences([]Stim{pubS(0), recvS(0), recvS(1), advanceS}, n2) {
+			out = append(out, append([]Stim{all(0, 0, true, cbt), all(2, 2, true, 0)}, seq...))
+		}
+	}
+	_ = rng
+	return out
+}
+
 // ---------- C06: no timeouts fire (60 s), no callbacks, no closes ----------
 
 func genC06(tier string, rng *rand.Rand) []Script {
@@ -89,6 +157,10 @@ func genC06(tier string, rng *rand.Rand) []Script {
 			st = append(st, pubS(0))
 		}
 		add("options-matrix", st)
+	}
+	// subscribers closed, new ones created, older ones keep receiving
+	for _, st := range churnScripts(map[string]int{"quick": 4, "thorough": 6}[tier]) {
+		add("churn", st)
 	}
 	// exhaustive, one subscriber: every Publish/TryReceive sequence of length L1
 	for _, c := range []int{0, 1, 2} {
@@ -172,6 +244,10 @@ func genC15(tier string, rng *rand.Rand) []Script {
 		for _, seq := range sequences([]Stim{pubS(0), recvS(0), advanceS}, L2) {
 			add("one-sub-nonpositive", append([]Stim{sub(1, 0, 0, 0, tm, true, true)}, seq...))
 		}
+	}
+	// callbacks that close their subscriber / the publication from inside the callback
+	for _, st := range callbackCloseScripts(rng, map[string]int{"quick": 3, "thorough": 4}[tier], map[string]int{"quick": 2, "thorough": 3}[tier]) {
+		add("callback-close", st)
 	}
 	// Publish with every buffer full and nobody receiving (60s timeouts): must return at once
 	{
@@ -284,6 +360,10 @@ func genC10(tier string, rng *rand.Rand) []Script {
 			}
 		}
 	}
+	// Close from inside OnTimeout / OnFiltered (of the own subscriber, of the publication)
+	for _, st := range callbackCloseScripts(rng, map[string]int{"quick": 3, "thorough": 4}[tier], map[string]int{"quick": 2, "thorough": 3}[tier]) {
+		add("callback-close", st)
+	}
 	// structured random: subscribers with mixed timeouts, closes anywhere, subscribing after a close
 	for i := 0; i < R; i++ {
 		ns := 1 + rng.Intn(3)
@@ -339,11 +419,11 @@ func scopeText(prop, tier string, n int) string {
 		if tier == "thorough" {
 			return fmt.Sprintf("%d scripts: every Publish/TryReceive sequence of length 8 for one subscriber (buffer 0,1,2 x no filter/even filter), every sequence of length 6 over {Publish,TryReceive s0,TryReceive s1} for 4 two-subscriber configurations, 3000 random scripts (2-4 subscribers, buffers 0-3, six filter kinds, callbacks present or nil, late subscriber); each followed by a drain", n)
 		}
-		return fmt.Sprintf("%d scripts: every Publish/TryReceive sequence of length 5 for one subscriber (buffer 0,1,2 x no filter / even filter+OnFiltered+OnTimeout), a 12-subscriber matrix of filter x OnFiltered x OnTimeout, every sequence of length 4 over {Publish,TryReceive s0,TryReceive s1} for 4 two-subscriber configurations, 120 random scripts (2-4 subscribers, buffers 0-3, six filter kinds, callbacks present or nil, late subscriber); each followed by a drain", n)
+		return fmt.Sprintf("%d scripts: every Publish/TryReceive sequence of length 5 for one subscriber (buffer 0,1,2 x no filter / even filter+OnFiltered+OnTimeout), a 12-subscriber matrix of filter x OnFiltered x OnTimeout, churn (every sequence of length %d over {Subscribe, close oldest, close newest, Publish} after two subscribers), every sequence of length 4 over {Publish,TryReceive s0,TryReceive s1} for 4 two-subscriber configurations, 120 random scripts (2-4 subscribers, buffers 0-3, six filter kinds, callbacks present or nil, late subscriber); each followed by a drain", n, 4)
 	case "C15":
-		return fmt.Sprintf("%d scripts: the two F11 witnesses, 60ms-vs-60s and 60ms-vs-160ms timeout pairs, zero and negative (-1s) timeouts (3 fixed scripts + every sequence of length %d over {Publish,TryReceive,Advance} each), Publish x12 into full buffers; every sequence of length %d over {Publish,TryReceive,Advance} for one subscriber with a 60ms timeout and both callbacks (buffer 0,1); every sequence of length %d over {Publish,TryReceive s0,TryReceive s1,Advance} for 3 two-subscriber configurations (s0 60ms, s1 60s); seeded random scripts (2-4 subscribers, buffers 0-2, timeouts 60ms/160ms/60s/0/-1s, callbacks present or nil); each followed by Advance + drain + a settled marker", n, map[string]int{"quick": 3, "thorough": 4}[tier], map[string]int{"quick": 4, "thorough": 5}[tier], map[string]int{"quick": 3, "thorough": 4}[tier])
+		return fmt.Sprintf("%d scripts: the two F11 witnesses, 60ms-vs-60s and 60ms-vs-160ms timeout pairs, zero and negative (-1s) timeouts (3 fixed scripts + every sequence of length %d over {Publish,TryReceive,Advance} each), Publish x12 into full buffers; callbacks that call Subscriber.Close / Publication.Close from inside OnTimeout / OnFiltered; every sequence of length %d over {Publish,TryReceive,Advance} for one subscriber with a 60ms timeout and both callbacks (buffer 0,1); every sequence of length %d over {Publish,TryReceive s0,TryReceive s1,Advance} for 3 two-subscriber configurations (s0 60ms, s1 60s); seeded random scripts (2-4 subscribers, buffers 0-2, timeouts 60ms/160ms/60s/0/-1s, callbacks present or nil); each followed by Advance + drain + a settled marker", n, map[string]int{"quick": 3, "thorough": 4}[tier], map[string]int{"quick": 4, "thorough": 5}[tier], map[string]int{"quick": 3, "thorough": 4}[tier])
 	case "C10":
-		return fmt.Sprintf("%d scripts: the F16 witness (Subscribe(0); Publish(1); Close) for Publication.Close and Subscriber.Close, a buffer-kept script, and for each of %d base scripts (1-3 subscribers, buffers 0-3, deliveries pending / buffered / timed out) a Close of each subscriber, of the publication, twice, both, and at two different positions injected at EVERY position; seeded random scripts with closes anywhere and subscribers joining after a close; each followed by a drain and a settled marker", n, map[string]int{"quick": 5, "thorough": 7}[tier])
+		return fmt.Sprintf("%d scripts: the F16 witness (Subscribe(0); Publish(1); Close) for Publication.Close and Subscriber.Close, a buffer-kept script, and for each of %d base scripts (1-3 subscribers, buffers 0-3, deliveries pending / buffered / timed out) a Close of each subscriber, of the publication, twice, both, and at two different positions injected at EVERY position; Close called from inside OnTimeout / OnFiltered callbacks; seeded random scripts with closes anywhere and subscribers joining after a close; each followed by a drain and a settled marker", n, map[string]int{"quick": 5, "thorough": 7}[tier])
 	}
 	return ""
 }
